@@ -1143,3 +1143,64 @@ example : (arun udp (idle (init [] [])) [.arrive (.clientData q1), .arrive (.cli
     (arun udp (idle (init [] [])) [.arrive (.clientData q1), .arrive (.clientData q2)]).2.length = 1 := by decide +kernel
 
 end MitmVerif.Props.C27
+
+/-! ### round 6 cross-audit: non-vacuity witnesses for hypotheses that had no concrete instance (appended by the auditor) -/
+namespace MitmVerif.Props.C27
+open MitmVerif MitmVerif.C25 MitmVerif.C27
+
+-- `connect_failure_servfail`: all seven hypotheses hold for a fresh UDP layer whose first connect attempt fails
+example : ∃ q, unpack udp.I q1 = some q ∧ (init [] [false]).core.phase = .query ∧ (init [] [false]).core.acts = [] ∧
+    udp.upstream = true ∧ udp.tcp = false ∧ (init [] [false]).core.serverOpen = false ∧
+    (init [] [false]).core.serverFailed = false ∧ (init [] [false]).core.conns = false :: [] := by decide +kernel
+
+-- `stray_reply_ignored`: after the history [query q1] the upstream data r77 (unknown id) and r1x (other question)
+-- decode to one message each, and no announced query has their id and question section
+example : (extract udp.I udp.tcp (run udp (init [] []) [.clientData q1]).1.respBuf r77).1.length = 1 ∧
+    (∀ m ∈ (extract udp.I udp.tcp (run udp (init [] []) [.clientData q1]).1.respBuf r77).1,
+      ∀ q ∈ queriesOf (run udp (init [] []) [.clientData q1]).2, ¬ (q.id = m.id ∧ q.questions = m.questions)) ∧
+    (∀ m ∈ (extract udp.I udp.tcp (run udp (init [] []) [.clientData q1]).1.respBuf r1x).1,
+      ∀ q ∈ queriesOf (run udp (init [] []) [.clientData q1]).2, ¬ (q.id = m.id ∧ q.questions = m.questions)) ∧
+    (queriesOf (run udp (init [] []) [.clientData q1]).2).length = 1 := by decide +kernel
+
+-- `buffered_server_segment_commutes` / `split_frame_around_query`: a reachable TCP state with the upstream open and an
+-- upstream segment (the first 7 bytes of a reply frame) that completes no frame
+example : (run tcp (init [] []) [.clientData (frame q1)]).1.core.phase = .query ∧
+    (run tcp (init [] []) [.clientData (frame q1)]).1.core.serverOpen = true ∧
+    (parse tcp.I ((run tcp (init [] []) [.clientData (frame q1)]).1.respBuf ++ (frame r1).take 7)).1 = [] ∧
+    (parse tcp.I ((run tcp (init [] []) [.clientData (frame q1)]).1.respBuf ++ (frame r1).take 7)).2.2 = false := by
+  decide +kernel
+
+-- `reply_with_other_question_section_ignored`: in the state after query q1 the reply r1x has a flow under its id whose
+-- request carries another question section
+example : (match unpack noIdna r1x with
+    | some m =>
+      (match (run udp (init [] []) [.clientData q1]).1.core.flows.lookup m.id with
+       | some f => (match f.request with | some q => decide (m.questions ≠ q.questions) | none => false)
+       | none => false)
+    | none => false) = true := by decide +kernel
+
+-- `upstream_reply_cases`, first conjunct: … and the reply r1 finds a flow under its id with the same question section
+example : (match unpack noIdna r1 with
+    | some m =>
+      (match (run udp (init [] []) [.clientData q1]).1.core.flows.lookup m.id with
+       | some f => (match f.request with | some q => decide (m.questions = q.questions) | none => false)
+       | none => false)
+    | none => false) = true := by decide +kernel
+
+-- `layer_never_raises` / `bad_length_closes_history`: the hypothesis about addon responses with a script that does set one
+example : (match unpack noIdna r1 with
+    | some m => (addonMsgs [.respond m, .pass]).all (fun x => (pack noIdna x).isSome) && decide ((addonMsgs [.respond m, .pass]).length = 1)
+    | none => false) = true := by decide +kernel
+
+-- `bad_length_closes_history`: after the non-empty history [frame q2] the layer still serves, its request buffer is empty,
+-- and the next segment is a complete frame followed by a zero length prefix and more bytes
+example : (run tcp (init [] []) [.clientData (frame q2)]).1.core.phase = .query ∧
+    (run tcp (init [] []) [.clientData (frame q2)]).1.reqBuf ++ (frame q1 ++ [0, 0, 9]) = frame q1 ++ 0 :: 0 :: [9] ∧
+    (parse tcp.I (frame q1)).2 = ([], false) ∧ (parse tcp.I (frame q1)).1.length = 1 := by decide +kernel
+
+-- `bad_length_closes_server(_history)`: the same on the upstream side, with the upstream open
+example : (run tcp (init [] []) [.clientData (frame q1)]).1.core.serverOpen = true ∧
+    (run tcp (init [] []) [.clientData (frame q1)]).1.respBuf ++ (frame r1 ++ [0, 0]) = frame r1 ++ 0 :: 0 :: [] ∧
+    (parse tcp.I (frame r1)).2 = ([], false) ∧ (parse tcp.I (frame r1)).1.length = 1 := by decide +kernel
+
+end MitmVerif.Props.C27
